@@ -1026,7 +1026,7 @@ func retypeShape(t *rapid.T, s shape.Shape, leafTypes []string) shape.Shape {
 }
 
 const typesRuleCommon = "config struct types from the shape grammar restricted to NAMED leaves: named scalars (Level, Count, Ratio, Flag, Name, Timeout, Color, Phase, Tiny, Big), named slices / maps / sets, " +
-	"slices and maps whose element or key type is named, user-declared pointers to those (and to slices / maps, and pointers to pointers), collections of collections, text-unmarshalable leaves, a few predeclared leaves for contrast; " +
+	"slices and maps whose element or key type is named, user-declared pointers to those (and to slices / maps, and pointers to pointers), collections of collections, text-unmarshalable leaves, uintptr-kind leaves (uintptr, Handle, pointers, slices, map values and map keys of them: every one is fed a well-formed number, the string-casting path must answer with an error), a few predeclared leaves for contrast; " +
 	"nested, pointer-to-struct and embedded structs (EmbNamed, EmbPtr, EmbDeep, EmbA, EmbB, and EmbSlices / EmbSlicesTagged whose members are []Struct, [2]Struct, *Struct, map[string]Struct, []*Struct of a small dials-tagged struct; by value and by pointer; the members are left unset in a good share of cases: set_pct is 100, 70, 40 or 0), skipped fields in any position, occasional dials / dialsalias tags; depth<=2, <=6 fields per struct; root fields are renamed until all flattened leaf names are distinct. " +
 	"One case in six uses, instead of a generated shape, one of 7 COMPILED config types with embedded shapes reflect.StructOf cannot build: time.Time embedded between ordinary fields, *Stamp embedded next to a method-less embedded struct, embedded structs with ordinary value / pointer methods (by value and by pointer), nested named structs that embed time.Time / a struct with methods, slices / arrays / maps whose element struct embeds time.Time, a method-less struct or a struct with methods, and all of them at once; non-trivial for these = at least one leaf fed. " +
 	"OBJECT REUSE (env, the four decoders, the bare mangler chains; not the flag / pflag Sets, which are bound to one template): in half of the cases the SAME env.Source value / decoder value + transforming decoder / mangler values serve 2..3 calls in a row with different config types - " +
